@@ -1,10 +1,9 @@
 \* simulation: random walks of MaxN entries, printed as programs for replay on the real server
-SPECIFICATION Spec
+SPECIFICATION SimSpec
 CONSTANTS
   NetName = "robustirc.net"
   MaxN = 25
   Families = {"reg", "member", "mode", "talk", "oper", "services", "entry", "addr", "time"}
   Prologues = {1, 2, 3, 4}
 INVARIANT NoFailure
-CONSTRAINT EmitProgram
 CHECK_DEADLOCK FALSE
